@@ -4,6 +4,7 @@
 #ifndef C03_PROG_H
 #define C03_PROG_H
 #define _GNU_SOURCE
+#include <sys/resource.h>
 #include <stdio.h>
 #include <stdlib.h>
 #include <string.h>
@@ -447,6 +448,10 @@ static void per_line_fork (void (*f) (char *)) {
     if (pid == 0) {
       install_death_reports ();
       alarm (20);
+      { /* last resort against a child that survives its own death report: the kernel kills it */
+        struct rlimit rl_cpu = {120, 150};
+        setrlimit (RLIMIT_CPU, &rl_cpu);
+      }
       f (line);
       fflush (stdout);
       normal_end = 1;
